@@ -12,7 +12,7 @@ the library perform is exact or performed identically (same IEEE operation on
 the same operands); comparison can therefore be exact.
 """
 
-from vf.model_patterns import INF, isnode
+from vf.model_patterns import INF, isnode, OMIT
 
 INT_LITS = [-3, -2, -1, 0, 1, 2, 3, 4, 5, 7, 9]
 FLT_LITS = [k * 0.25 for k in (-10, -6, -4, -3, -2, -1, 0, 1, 2, 3, 4, 5, 6, 8, 10, 13, 18)]
@@ -120,7 +120,8 @@ class Gen:
         r = self.r
         if kind in ('int', 'flt') and r.random() < 0.3:
             step = self.lit(kind)
-            return ('Pseries', self.lit(kind), step, self.repeats(1, 6))
+            return ('Pseries', self.omit(self.lit(kind), 0.15), self.omit(step, 0.15),
+                    self.repeats(1, 6))
         lits = [self.lit(kind) for _ in range(r.randint(1, 4))]
         c = r.random()
         if c < 0.7:
@@ -230,10 +231,15 @@ class Gen:
         """a concrete numeric kind for homogeneous operations"""
         return self.r.choice(['int', 'flt']) if kind == 'num' else kind
 
+    def omit(self, v, p=0.2):
+        """leave a defaulted constructor argument out"""
+        return OMIT if self.r.random() < p else v
+
     def mk_Pseries(self, kind, d):
         k = self.nk(kind)
         step = self.g(k, d - 1) if self.r.random() < 0.4 else self.lit(k)
-        return ('Pseries', self.lit(k), step, self.repeats(0, 8))
+        return ('Pseries', self.omit(self.lit(k)), self.omit(step),
+                self.omit(self.repeats(0, 8), 0.1))
 
     def mk_Pgeom(self, kind, d):
         k = self.nk(kind)
@@ -244,7 +250,8 @@ class Gen:
                     self.repeats(1, 3, 0.5), 0)
         else:
             grow = r.choice(grows)
-        return ('Pgeom', self.lit(k), grow, self.repeats(0, 8))
+        return ('Pgeom', self.omit(self.lit(k)), self.omit(grow),
+                self.omit(self.repeats(0, 8), 0.1))
 
     def mk_Pdiff(self, kind, d):
         return ('Pdiff', self.g(self.subkind(kind), d - 1))
